@@ -262,6 +262,11 @@ var seqCorpus = [][]string{
 		"unsub 3", "unsub 3", "unsub 4", "set 4", "state"},
 	// DESIGN.md section 7: Replace({2,3}) on {1,2} with a folding subscriber
 	{"newset 1,2", "sub 0", "replace 2,3", "state"},
+	// 2^32-1 calls without effect between two changes: the id of the second change must still differ from the first
+	{"newset 1", "sub 0", "uid", "add 1", "uid", "idle 4294967295", "uid", "add 2", "state", "idle 65535", "del 1", "idle 255", "add 3", "uid", "state"},
+	{"newset -", "sub 1", "add 1", "idle 4294967296", "sub 0", "idle 4294967295", "toggle 1", "uid", "state"},
+	{"newvar", "uid", "set 3", "set 3", "uid", "sub 0", "compute 1", "uid", "state"},
+	{"newevent", "uid", "set 0", "trigger", "trigger", "uid", "state"},
 	{"newset 1,2", "sub 1", "replace 1,2", "replace -", "replace 0,4", "state"},
 	// Replace whose argument is the set itself / a view of it: must be a no-op that says so
 	{"newset 1,2", "sub 0", "replace-self", "state", "replace-view", "state", "add 3", "replace-self", "state"},
